@@ -373,19 +373,41 @@ def run_check(pid, units, tier, seed, level, notes=None, checker_cmd=None, assum
         # units are independent: run each in its own forked process (bounded units start their own worker pools inside)
         import concurrent.futures as cf
         import multiprocessing as mp
-        with cf.ProcessPoolExecutor(max_workers=len(units), mp_context=mp.get_context("fork")) as ex:
+        ex = cf.ProcessPoolExecutor(max_workers=len(units), mp_context=mp.get_context("fork"))
+        hung = []
+        try:
             global _UNITS
             _UNITS = list(units)           # inherited by the forked workers (contracts hold closures and cannot be pickled)
             futs = [ex.submit(_run_unit_idx, i, ctx) for i in range(len(units))]
+            # watchdog: a solver that does not honour its budget must not hang the check (seen once: z3's Diophantine handler ran for hours)
+            limit = float(os.environ.get("VERIF_UNIT_LIMIT_S", 2400 if tier == "quick" else 4 * 3600))
+            deadline = time.time() + limit
             for u, f in zip(units, futs):
                 try:
-                    kind, payload = f.result()
+                    kind, payload = f.result(timeout=max(1.0, deadline - time.time()))
+                except cf.TimeoutError:
+                    hung.append(u.name)
+                    continue
                 except Exception:
                     kind, payload = "crash", f"unit {u.name} crashed in its worker:\n{traceback.format_exc()}"
                 if kind == "ok":
                     results.append(payload)
                 else:
                     crashed.append(payload)
+        finally:
+            if hung:
+                for p_ in list(getattr(ex, "_processes", {}).values()):
+                    try:
+                        p_.kill()
+                    except Exception:
+                        pass
+                ex.shutdown(wait=False, cancel_futures=True)
+            else:
+                ex.shutdown(wait=True)
+        for name in hung:
+            r = UnitResult(name, "P")
+            r.undecided.append(f"UNDECIDED unit {name}: exceeded the time limit of {int(limit)} s (a back end did not honour its budget); killed -- not a verdict")
+            results.append(r)
     else:
         for u in units:
             kind, payload = _run_unit(u, ctx)
